@@ -141,6 +141,7 @@ func genC05(t *rapid.T) C05Case {
 	applyWishes(u, wish)
 	repairNonFailing(tree, u)
 	tree = wrapRoot(tree)
+	caseTwins(t, tree, u)
 	return C05Case{U: *u, Tree: tree, Avail: genTrySplit(t, tree, nil), Src: m.Render(tree)}
 }
 
